@@ -73,6 +73,16 @@ CHECKS['C05'] = {
     'note': 'Trusted: pyvc; A4 numba.jit = Python semantics; np.where(A != inf) modelled as two index arrays; brute-force oracle specs/viterbi.py.',
 }
 
+CHECKS['C16'] = {
+    'level': 'other',
+    'technique': 'hybrid: deductive range proofs under exp/log-sum-exp axioms and a relational (two-run) monotonicity proof (z3) + bounded numeric run-time contract',
+    'text': ('PROVED modulo the axioms exp > 0, exp(x) <= 1 for x <= 0, lse >= every element: get_prob in [0,1]; get_line_confidence entries in [0,1] '
+             '(clip and masking structure); posteriors <= 0 and differ from total scores by one constant; confidence in (0,1]; transcript_confidence in [0,1]; '
+             'line_confident_enough monotone in its threshold (relational proof over two runs). BOUNDED numeric: range, shift invariance, one-hot = 1, '
+             'posteriors sum to 1 on a grid of matrices and on bag histories (query/add/re-weight/query).'),
+    'note': 'Trusted: pyvc; exp and logsumexp are uninterpreted with the listed axioms (A2: reals, no round-off); numpy row reductions opaque pure functions in the relational proof; "within round-off" clauses are numeric/bounded only.',
+}
+
 NOT_APPLICABLE = {
     'C20': ('equality up to round-off of float tensors produced by torch C++ kernels through module-resident caches across calls: no contract '
             'within reach can state it over reals, no finite domain makes a bounded check exhaustive; a random differential test would be a different technique (DESIGN.md §6)'),
